@@ -398,6 +398,62 @@ func c01() []*Ob {
 					c.Undecided("trunc:extract:"+p, fn.Pos(), "%s", p)
 				}
 			}},
+		{Prop: "C01", ID: "C01.8", Engine: "PROV(verbatim error)", Floor: 4,
+			Desc: "short reads reach Replay: ReadLimiter.ReadAt, DocBlocksReader.getDocBlockLen and ReadDocBlock return the error of the underlying ReadAt verbatim on every path after the read (Replay recognises the torn tail only by err == io.EOF)",
+			Check: func(c *Ctx) {
+				for _, it := range []struct {
+					fn string
+					m  Matcher
+				}{
+					{"(*disk.ReadLimiter).ReadAt", Callee("(*os.File).ReadAt")},
+					{"(*disk.DocBlocksReader).getDocBlockLen", Callee("(*disk.ReadLimiter).ReadAt")},
+					{"(*disk.DocBlocksReader).ReadDocBlock", Callee("(*disk.ReadLimiter).ReadAt", "(*disk.DocBlocksReader).getDocBlockLen")},
+				} {
+					fn := c.Fn(it.fn)
+					if fn == nil {
+						continue
+					}
+					calls := CallsIn(fn, it.m)
+					if len(calls) == 0 {
+						c.Undecided("verbatim:nocall:"+it.fn, fn.Pos(), "%s no longer performs the read this rule is about", it.fn)
+						continue
+					}
+					for _, rp := range ReturnPaths(fn, ErrorResultIndex(fn)) {
+						// the last read that dominates this return decides
+						var last ssa.CallInstruction
+						for _, cl := range calls {
+							ci := cl.(ssa.Instruction)
+							if ci.Block() == rp.At || ci.Block().Dominates(rp.At) {
+								if last == nil || Dominates(last.(ssa.Instruction), ci) {
+									last = cl
+								}
+							}
+						}
+						if last == nil {
+							continue
+						}
+						ev := ErrorResult(last)
+						switch {
+						case ev != nil && SameValue(rp.Val, ev):
+							c.Site(rp.Ret.Pos(), "%s returns the error of %s verbatim", it.fn, CallName(last))
+						case ev != nil && IsNilConst(rp.Val) && KnownNil(rp.Facts, ev):
+							c.Site(rp.Ret.Pos(), "%s returns nil only under %s err == nil", it.fn, CallName(last))
+						case DefinitelyNonNil(rp.Val, rp.Facts) && func() bool {
+							// an earlier read's own error returned under its != nil test
+							for _, cl := range calls {
+								if e := ErrorResult(cl); e != nil && SameValue(rp.Val, e) {
+									return true
+								}
+							}
+							return false
+						}():
+							c.Site(rp.Ret.Pos(), "%s returns a failed read's error", it.fn)
+						default:
+							c.Violation("verbatim:"+it.fn+":"+CallName(last), rp.Ret.Pos(), "%s returns %s instead of the error of %s: a short read (torn tail) is no longer reported as io.EOF to Replay", it.fn, Short(rp.Val.String()), CallName(last))
+						}
+					}
+				}
+			}},
 		{Prop: "C01", ID: "C01.7", Engine: "FILESTATE", Floor: 10,
 			Desc:  "loader totality on the active-fraction file sets: no crash prefix of fraction creation, sealing or release makes the loader reach a fatal sink (the store always comes back up)",
 			Check: func(c *Ctx) { fileStateObligations(c, "C01") }},
